@@ -55,6 +55,13 @@ ENUM_TESTS["negotiate_table"] = {
   "what": "negotiate_security_mechanism on the real table: a mechanism is returned only if the peer announced exactly its name and the local configuration enables it (NULL only without configured security); this is the contract the engine proof assumes for it",
 }
 
+ENUM_TESTS["v2_compat_table"] = {
+  "file": "enum/v2_compat_table.rs", "props": ["C05"], "pairs_fn": ["ZmtpEngine::validate_v2_compatibility"], "unit": "engine",
+  "append_to": "core/src/protocol/zmtp/engine.rs", "test_filter": "verif_enum_v2_compat",
+  "bound": "all 8 socket types rzmq can be configured as x all 256 values of the peer's ZMTP/2.0 socket-type byte (2048 cases = the function's whole decision domain)",
+  "what": "ZmtpEngine::validate_v2_compatibility on the real table (string-keyed, outside Verus and CBMC): the verdict is the ZeroMQ pairing table with XPUB/XSUB peers standing for PUB/SUB; an unknown byte is refused",
+}
+
 WITNESS_TESTS = {
   "c01_order_mixed_sizes": {
     "file": "witness/c01_order_mixed_sizes.rs", "props": ["C01"],
@@ -110,6 +117,10 @@ WITNESS_TESTS = {
   "c02_dealer_router_mixed_recv": {
     "file": "witness/c02_dealer_router_mixed_recv.rs", "props": ["C02"], "pairs_fn": ["DealerSocket::recv_multipart", "RouterSocket::recv_multipart"],
     "what": "ROUTER and DEALER: recv() of the first frame of message A, then recv_multipart(): must return the rest of A, not message B",
+  },
+  "c04_message_then_close": {
+    "file": "witness/c04_message_then_close.rs", "props": ["C04", "C01"], "pairs_fn": ["ZmqMessageProcessor::read_and_process"],
+    "what": "raw TCP peer: handshake, one last message, close at once (40 rounds): every message is delivered although data and end of stream reach rzmq in the same read cycle",
   },
   "c02_inproc_reader_too_many_frames": {
     "file": "witness/c02_inproc_reader_too_many_frames.rs", "props": ["C02", "C07"], "pairs_fn": ["inproc_reader_body"],
@@ -172,7 +183,7 @@ PROPS = {
 }
 
 PROPS["C01"] = {
-  "units": ["egress", "enc", "framer", "batch", "hsout", "drivers", "dealerq", "dealerproc", "inprocrd"],
+  "units": ["egress", "enc", "framer", "batch", "hsout", "drivers", "dealerq", "dealerproc", "inprocrd", "msgproc"],
   "kani_quick": [], "kani_thorough": [], "enum_fallback": ["egress_push_priority"],
   "claim": "Session-local byte-stream conservation, proved unbounded on the verbatim functions: EgressBuffer (push appends at the tail, advance(n) drops exactly n bytes from the front for every n and every chunking, "
            "push_priority inserts only after the partially written head chunk, counters follow the view) and the batch encoders (frame_contiguous / frame_vectored / NullFramer wrappers emit exactly enc_batches of the frames in batch order: "
@@ -252,7 +263,9 @@ PROPS["C04"] = {
            "(3b) byte conservation on a ghost history of the accumulator object: every handler leaves `bytes taken from the front ++ bytes still buffered` unchanged, on_network_bytes appends exactly the new bytes, "
            "and the greeting parser / decoders / framers are proved to consume from the front only -- the engine never drops, replaces or invents a byte of the peer's stream; "
            "(4) the session actor's handshake-phase handler (apply_engine_output_handshake, its application-action loop extracted as a region) appends every such delivery, in order, to the ingress queue the operational loop hands to the socket "
-           "(deliveries stop only at a PeerError).",
+           "(deliveries stop only at a PeerError). "
+           "Session ingress read (unit msgproc: the whole ZmqMessageProcessor::read_and_process): every byte the call took from the socket has been handed to the engine, in order, at every exit -- also when the end of the stream is seen after some bytes were read "
+           "(a transport failure may take them with it) -- and at every await (R11) no byte taken from the socket is held in a local only.",
   "level_note": "The io_uring handler is not covered; the operational loop's own handling of DeliverMessage (ingress_buffer.push_back inside tokio::select!) is read, not under contract. The abstract framer's would_block ghost predicate is tied to real code only for NullFramer (dec_step).",
   "technique": "contract-based deductive verification (Verus) + pure lemmas over the contract spec functions",
   "trusted_base": ENGINE_TRUSTED,
@@ -322,7 +335,7 @@ PROPS["C06"]["level_note"] = ("Relative to the abstract Mechanism contract for C
                               "When the Verus route cannot decide after an edit (rewrite anchor lost / construct outside the subset), the bounded Kani harness on the real PLAIN mechanism runs as fallback (bounded, never counted as proved).")
 PROPS["C07"]["units"] = ["dec", "framer", "engine", "framebatch", "command", "plain", "greeting", "codec", "flags", "inprocrd"]
 PROPS["C03"]["units"] = ["dec", "enc", "framer", "c03lem", "codec"]
-PROPS["C04"]["units"] = ["engine", "framer", "c03lem", "dec", "codec", "hsout"]
+PROPS["C04"]["units"] = ["engine", "framer", "c03lem", "dec", "codec", "hsout", "msgproc"]
 
 PROPS["C18"]["claim"] = ("Record layer only, for ANY cipher (encrypt/decrypt abstract): writers return either an error or a record whose 16-bit big-endian length prefix equals the number of ciphertext bytes that follow; "
                          "the reader (LengthPrefixedFramer::try_read_msg) cuts records exactly at their announced length, consumes them whole and in order, hands each to the cipher exactly once, and leaves an incomplete record untouched "
@@ -363,6 +376,7 @@ PROPS["C17"] = {
 PROPS["C05"] = {
   "units": ["engine", "compat", "greeting", "plain"],
   "kani_quick": [], "kani_thorough": [], "kani_fallback": ["vk_plain_server_accepts_only_configured_credentials"],   # "wrong credentials: both ends fail"
+  "enum_quick": ["v2_compat_table"],
   "claim": "Partial: (1) staged greeting on the verbatim process_greeting: our revision byte is sent as soon as the peer's 10-byte signature is seen and at most once, ZMTP/3 is committed as soon as the peer's revision byte is seen "
            "(no stage waits for more than the peer's previous stage: no mutual wait); (2) the inproc compatibility table equals the ZeroMQ pairing table outside a recorded gap of six pairs, the pairing table is symmetric; "
            "(2b) ZmtpGreeting::decode is total, consumes exactly 64 bytes and accepts exactly the well-formed greetings, encode produces one, encode_v3_tail/encode_signature produce the staged pieces (decode after encode returns version 3.0, the mechanism and the role); "
@@ -435,7 +449,7 @@ PROPS["C10"] = {
 }
 
 PROPS["C09"] = {
-  "units": ["reqrep", "dealersend", "drivers", "routersend"],
+  "units": ["reqrep", "dealersend", "drivers", "routersend", "msgproc"],
   "kani_quick": [], "kani_thorough": [],
   "claim": "Protocol-state part for REQ and REP only, proved on the verbatim async functions: a future can be dropped only where it returned Pending, i.e. at an await; "
            "before EVERY await of ReqSocket::send / recv / recv_multipart and RepSocket::recv / recv_multipart (the assertion is inserted mechanically at each `.await` of the extracted text) no write to the protocol state has happened yet, "
